@@ -444,3 +444,14 @@ def schedule_of_trace(path, drop_peers=(), keep_cfg=None):
                     s[k] = l[k]
             steps.append(s)
     return {"cfg": cfg, "steps": steps}
+
+
+def rep_compare(trace, metadir, timeout=900):
+    """C17: TLC compares the R runs contained in one trace (spec/Trace_Rep.tla)."""
+    import re
+    rc, out = core.tlc(os.path.join(core.SPEC, "Trace_Rep.tla"), os.path.join(core.SPEC, "Trace_Rep.cfg"),
+                       metadir, env={"TRACE": trace}, timeout=timeout, xmx="4g")
+    m = re.search(r'<<"REP-RESULT", "(.*)">>', out)
+    if not m:
+        raise core.ToolError("Trace_Rep produced no result for %s (rc=%d): %s" % (trace, rc, out[-2000:]))
+    return json.loads(m.group(1).encode().decode("unicode_escape"))
